@@ -2,7 +2,7 @@ use bitcoin::hashes::{sha256d, Hash};
 use std::collections::HashMap;
 use std::convert::TryInto;
 use std::fmt;
-use std::io::Cursor;
+use std::io::{Cursor, Read};
 use std::path::Path;
 
 use byteorder::ReadBytesExt;
@@ -11,8 +11,11 @@ use rusty_leveldb::{LdbIterator, Options, DB};
 use crate::common::Result;
 use crate::ParserOptions;
 
-const BLOCK_VALID_CHAIN: u64 = 4;
+const BLOCK_VALID_MASK: u64 = 7;
+const BLOCK_VALID_SCRIPTS: u64 = 5;
 const BLOCK_HAVE_DATA: u64 = 8;
+const BLOCK_HAVE_UNDO: u64 = 16;
+const BLOCK_FAILED_MASK: u64 = 32 | 64;
 
 /// Holds the index of longest valid chain
 pub struct ChainIndex {
@@ -84,6 +87,7 @@ impl ChainIndex {
 /// See https://bitcoin.stackexchange.com/questions/28168/what-are-the-keys-used-in-the-blockchain-leveldb-ie-what-are-the-keyvalue-pair
 pub struct BlockIndexRecord {
     pub block_hash: sha256d::Hash,
+    prev_hash: sha256d::Hash,
     pub blk_index: u64,
     pub data_offset: u64, // offset within the blk file
     version: u64,
@@ -101,11 +105,26 @@ impl BlockIndexRecord {
         let height = read_varint(&mut reader)?;
         let status = read_varint(&mut reader)?;
         let tx_count = read_varint(&mut reader)?;
-        let blk_index = read_varint(&mut reader)?;
-        let data_offset = read_varint(&mut reader)?;
+        // File number and positions are only stored if the respective data is available
+        let mut blk_index = 0;
+        let mut data_offset = 0;
+        if status & (BLOCK_HAVE_DATA | BLOCK_HAVE_UNDO) > 0 {
+            blk_index = read_varint(&mut reader)?;
+        }
+        if status & BLOCK_HAVE_DATA > 0 {
+            data_offset = read_varint(&mut reader)?;
+        }
+        if status & BLOCK_HAVE_UNDO > 0 {
+            read_varint(&mut reader)?;
+        }
+        // The record ends with the block header, prev_hash follows the version field
+        let mut header = [0u8; 80];
+        reader.read_exact(&mut header)?;
+        let prev_hash: [u8; 32] = header[4..36].try_into().unwrap();
 
         Ok(BlockIndexRecord {
             block_hash: sha256d::Hash::from_byte_array(block_hash),
+            prev_hash: sha256d::Hash::from_byte_array(prev_hash),
             version,
             height,
             status,
@@ -133,7 +152,7 @@ impl fmt::Debug for BlockIndexRecord {
 pub fn get_block_index(path: &Path) -> Result<HashMap<u64, BlockIndexRecord>> {
     info!(target: "index", "Reading index from {} ...", path.display());
 
-    let mut block_index = HashMap::with_capacity(900000);
+    let mut records = HashMap::with_capacity(900000);
     let mut db_iter = DB::open(path, Options::default())?.new_iter()?;
     let (mut key, mut value) = (vec![], vec![]);
 
@@ -141,10 +160,23 @@ pub fn get_block_index(path: &Path) -> Result<HashMap<u64, BlockIndexRecord>> {
         db_iter.current(&mut key, &mut value);
         if is_block_index_record(&key) {
             let record = BlockIndexRecord::from(&key[1..], &value)?;
-            if record.status & (BLOCK_VALID_CHAIN | BLOCK_HAVE_DATA) > 0 {
-                block_index.insert(record.height, record);
+            if record.status & BLOCK_HAVE_DATA > 0 && record.status & BLOCK_FAILED_MASK == 0 {
+                records.insert(record.block_hash, record);
             }
         }
+    }
+
+    // The active chain ends in the highest fully validated block.
+    // Follow the prev_hash links from there, stale and orphaned blocks are not reachable.
+    let mut cursor = records
+        .values()
+        .filter(|r| r.status & BLOCK_VALID_MASK >= BLOCK_VALID_SCRIPTS)
+        .max_by_key(|r| (r.height, r.block_hash))
+        .map(|r| r.block_hash);
+    let mut block_index = HashMap::with_capacity(records.len());
+    while let Some(record) = cursor.and_then(|hash| records.remove(&hash)) {
+        cursor = Some(record.prev_hash);
+        block_index.insert(record.height, record);
     }
     info!(target: "index", "Got longest chain with {} blocks ...", block_index.len());
     Ok(block_index)
